@@ -90,6 +90,22 @@ Theorem C01_diskdump_roundtrip_partial : forall decompress l pages img,
 Proof. exact diskdump_roundtrip. Qed.
 Print Assumptions C01_diskdump_roundtrip_partial.
 
+(** unaligned, page-crossing ranges through [read_locked]'s page loop *)
+Theorem C01_diskdump_read_range_partial : forall decompress l pages img,
+  dd_wf l img -> Forall2 (stores decompress) pages img -> len (encode_dd l pages) < 2^64 ->
+  exists st, dd_open (read_files [encode_dd l pages]) 1 = Ok st /\
+    forall zero_excluded addr n, addr + n <= 2^64 ->
+      let '(status, data) := dd_read (read_files [encode_dd l pages]) decompress st zero_excluded addr n in
+      exists m, N.of_nat m <= n /\
+        data = ReadProofs.bytes_from (spec_read_page img (dl_page_size l) (dl_max_mapnr l) zero_excluded)
+                                     (dl_page_size l) addr m /\
+        ((status = KDUMP_OK /\ N.of_nat m = n) \/
+         (N.of_nat m < n /\
+          spec_read_page img (dl_page_size l) (dl_max_mapnr l) zero_excluded
+                         ((addr + N.of_nat m) / dl_page_size l) = Err status)).
+Proof. exact diskdump_read_range. Qed.
+Print Assumptions C01_diskdump_read_range_partial.
+
 (** the right-hand side above, spelled out *)
 Theorem C01_spec_read_page_meaning : forall img pgsz max_pfn z pfn,
   match spec_read_page img pgsz max_pfn z pfn with
